@@ -261,13 +261,15 @@ struct OpenStack : etl::stack<typename C::value_type, C> {
 template <typename St, typename C, typename T>
 static void st_step(Step const& s, St (&v)[2], Out& o)
 {
+    constexpr bool copyable = std::is_copy_constructible_v<T>;
     auto& x = v[s.t];
     auto& y = v[1 - s.t];
     auto const& cx = x;
     auto const& op = s.op;
     auto A = [&](int i) { return s.a[static_cast<std::size_t>(i)]; };
     auto val = [&](int i) { return mk<T>(static_cast<int>(A(i))); };
-    if (op == "pb") { T c = val(0); x.push(c); }
+    auto unsupported = [&] { o.tok("unsupported-step"); };
+    if (op == "pb") { if constexpr (copyable) { T c = val(0); x.push(c); } else { unsupported(); } }
     else if (op == "pbr") { x.push(val(0)); }
     else if (op == "eb") { x.emplace(mkarg<T>(static_cast<int>(A(0)))); }
     else if (op == "pop") { x.pop(); }
@@ -277,13 +279,21 @@ static void st_step(Step const& s, St (&v)[2], Out& o)
     else if (op == "swp") { v[0].swap(v[1]); }
     else if (op == "fsw") { using etl::swap; swap(static_cast<typename St::base&>(v[0]), static_cast<typename St::base&>(v[1])); }
     else if (op == "rel") { auto& a = v[0]; auto& b = v[1]; o.b(a == b).b(a != b).b(a < b).b(a <= b).b(a > b).b(a >= b); }
-    else if (op == "cpc") { St c(x); o.b(c == x); print_vec(o, c.cont()); }
+    else if (op == "cpc") { if constexpr (copyable) { St c(x); o.b(c == x); print_vec(o, c.cont()); } else { unsupported(); } }
     else if (op == "mvc") { St c(etl::move(x)); x = St{}; print_vec(o, c.cont()); }
-    else if (op == "cpa") { x = y; }
+    else if (op == "cpa") { if constexpr (copyable) { x = y; } else { unsupported(); } }
     else if (op == "mva") { x = etl::move(y); y = St{}; }
-    else if (op == "sca") { auto& r = x; x = r; }
-    else if (op == "fcc") { auto src = mkvec<T>(s.xs); C cont(src.data(), src.data() + src.size()); St tmp(cont); o.num(static_cast<i64>(tmp.size())); x = etl::move(tmp); }
-    else if (op == "fcr") { auto src = mkvec<T>(s.xs); C cont(src.data(), src.data() + src.size()); St tmp(etl::move(cont)); o.num(static_cast<i64>(tmp.size())); x = etl::move(tmp); }
+    else if (op == "sca") { if constexpr (copyable) { auto& r = x; x = r; } else { unsupported(); } }
+    else if (op == "fcc") {
+        if constexpr (copyable) { auto src = mkvec<T>(s.xs); C cont(src.data(), src.data() + src.size()); St tmp(cont); o.num(static_cast<i64>(tmp.size())); x = etl::move(tmp); }
+        else { unsupported(); }
+    }
+    else if (op == "fcr") {
+        auto src = mkvec<T>(s.xs);
+        C cont;
+        cont.move_insert(cont.begin(), src.data(), src.data() + src.size());   // a container holding xs (any T)
+        St tmp(etl::move(cont)); o.num(static_cast<i64>(tmp.size())); x = etl::move(tmp);
+    }
     else { o.tok("unknown-step"); }
 }
 
@@ -388,7 +398,7 @@ static void run_stack(std::vector<Step> const& steps, Out& impl)
     {
         using C  = etl::static_vector<T, N>;
         using St = OpenStack<C>;
-        static_assert(std::is_copy_assignable_v<etl::stack<T, C>> && std::is_move_assignable_v<etl::stack<T, C>>);
+        static_assert(std::is_copy_assignable_v<etl::stack<T, C>> == std::is_copy_constructible_v<T> && std::is_move_assignable_v<etl::stack<T, C>>);
         St v[2];
         run_steps(steps, impl, [&](Step const& s, Out& o) {
             st_step<St, C, T>(s, v, o);
@@ -503,6 +513,7 @@ int c01_part5(std::string const& fl, i64 cap, Steps const& steps, Out& impl)
     if (fl == "stack") { return MK_ST(int, 0, 1, 3, 4, 16, 256); }
     if (fl == "st_trk") { return MK_ST(Tracked, 1, 3, 4); }
     if (fl == "st_str") { return MK_ST(std::string, 1, 3); }
+    if (fl == "st_mov") { return MK_ST(MoveOnly, 1, 3, 4); }
     return -1;
 }
 #endif
